@@ -490,6 +490,52 @@ pub fn main(args: &[String]) {
         std::panic::set_hook(Box::new(|_| {}));
     }
     match args[0].as_str() {
+        "fullline" => {
+            // deterministic family: wrapping flex rows whose items fill the line almost exactly (n items of 1/n of the width, as
+            // percentages or as lengths: the f32 sums are within an ulp or two of the available width), at power-of-two scales
+            // from 2^-14 to 2^10 -- whether the last item wraps must not depend on the scale
+            let mut cases = 0u64;
+            for n in [3usize, 6, 7, 9, 11, 13] {
+                for w in [100.0f32, 90.0, 64.1, 33.3] {
+                    for as_percent in [true, false] {
+                        let item = |_: usize| NodeSpec {
+                            style: Style {
+                                size: Size {
+                                    width: if as_percent { Dimension::percent(1.0 / n as f32) } else { Dimension::length(w / n as f32) },
+                                    height: Dimension::length(20.0),
+                                },
+                                flex_shrink: 0.0,
+                                ..Default::default()
+                            },
+                            ctx: None,
+                            children: vec![],
+                        };
+                        let spec = NodeSpec {
+                            style: Style {
+                                display: Display::Flex,
+                                flex_wrap: FlexWrap::Wrap,
+                                size: Size { width: Dimension::length(w), height: Dimension::auto() },
+                                border: Rect { left: LengthPercentage::length(1.0), right: LengthPercentage::length(1.0), top: LengthPercentage::length(0.0), bottom: LengthPercentage::length(0.0) },
+                                box_sizing: BoxSizing::ContentBox,
+                                ..Default::default()
+                            },
+                            ctx: None,
+                            children: (0..n).map(item).collect(),
+                        };
+                        for e in [-14i32, -6, -3, -1, 1, 4, 10] {
+                            let k = 2f32.powi(e);
+                            cases += 1;
+                            let out = compare(&spec, Size::MAX_CONTENT, k);
+                            if out.panicked.0 != out.panicked.1 || !out.mismatches.is_empty() {
+                                let m = out.mismatches.first().map(|m| format!("node {} {}: {} at scale 1, {} at scale {k} (expected {})", m.node, m.field, m.orig, m.scaled, m.expected)).unwrap_or_default();
+                                println!("FAIL fullline n={n} width={w} {} k=2^{e}: {m}", if as_percent { "percent" } else { "length" });
+                            }
+                        }
+                    }
+                }
+            }
+            println!("FULLLINE {cases}");
+        }
         "oracle" => {
             let seed: u64 = args[1].parse().unwrap();
             let start: u64 = args[2].parse().unwrap();
